@@ -318,7 +318,10 @@ def well_formed(grammar):
 
 # ---------------------------------------------------------------- random generation
 def gen_grammar(r: random.Random, allow_leftrec=True):
-    nrules = r.randint(1, 4)
+    # "lr-heavy": more rules, left calls to ANY rule (also later ones): SCCs with several overlapping cycles, where the
+    # choice of the leader matters
+    lr_heavy = allow_leftrec and r.random() < 0.25
+    nrules = r.randint(3, 5) if lr_heavy else r.randint(1, 4)
     names = [f"r{i}" for i in range(nrules)]
 
     made_groups = []
@@ -378,7 +381,9 @@ def gen_grammar(r: random.Random, allow_leftrec=True):
         if k < 0.74:
             return {"k": "plus", "x": atom(depth + 1, ri)}
         if k < 0.80:
-            return {"k": "gather", "sep": {"k": "tok", "s": r.choice(TOKENS)}, "x": atom(depth + 1, ri)}
+            # the separator is any atom: a token, a rule (possibly several tokens long) or a group
+            sep = {"k": "tok", "s": r.choice(TOKENS)} if r.random() < 0.55 else atom(depth + 1, ri)
+            return {"k": "gather", "sep": sep, "x": atom(depth + 1, ri)}
         if k < 0.86:
             return {"k": "pos", "x": atom(depth + 1, ri)}
         if k < 0.92:
@@ -396,7 +401,11 @@ def gen_grammar(r: random.Random, allow_leftrec=True):
                 alts.append({"items": [atom(1, ri)], "action": None})
                 continue
             items = [item(0, ri) for _ in range(r.randint(1, 3))]
-            if allow_leftrec and r.random() < 0.25:
+            if lr_heavy and r.random() < 0.5:
+                items[0] = {"k": "rule", "n": r.choice(names)}
+                if len(items) == 1:
+                    items.append({"k": "tok", "s": r.choice(TOKENS)})
+            elif allow_leftrec and r.random() < 0.25:
                 items[0] = {"k": "rule", "n": r.choice(names[: ri + 1])}
             action = "tuple" if r.random() < 0.75 else None
             if action == "tuple":
